@@ -56,9 +56,17 @@ def peek_requeued(a: CompilerArgs):
 def peek_copy(a: CompilerArgs):
     b = a.copy()
     return b._container
+
+def peek_captured(a: CompilerArgs, xs):
+    a.flush_pre_post()
+    put = a._container.append
+    for x in xs:
+        a.append(x)
+        put(x)
 '''
 EXAMPLE_REL = 'mesonbuild/_c13_builtin_example.py'
-EXAMPLE_WANT = {'peek_dirty': lazy.DIRTY, 'peek_clean': lazy.CLEAN, 'peek_requeued': lazy.DIRTY, 'peek_copy': lazy.CLEAN}
+EXAMPLE_WANT = {'peek_dirty': [lazy.DIRTY], 'peek_clean': [lazy.CLEAN], 'peek_requeued': [lazy.DIRTY], 'peek_copy': [lazy.CLEAN],
+                'peek_captured': [lazy.CLEAN, lazy.DIRTY]}   # capture while flushed, use of the captured bound method after a re-queue
 
 
 def family(repo: Repo) -> lazy.Family:
@@ -172,9 +180,9 @@ def _builtin_example(ctx: RuleCtx, fam2: lazy.Family) -> None:
     for name, want in EXAMPLE_WANT.items():
         an = lazy.Analysis(fam2, mod, mod.func(name), name, None).run()
         got = [a.status[0] for a in an.accesses]
-        if got != [want]:
-            raise AnalysisError(f'built-in example {name}: expected the access to be {lazy.LEVEL[want]}, analysis says {[lazy.LEVEL[g] for g in got]}')
-    ctx.note(f'built-in example: {len(EXAMPLE_WANT)} synthetic accessors classified as expected (dirty/clean/re-queued/copy)')
+        if got != want:
+            raise AnalysisError(f'built-in example {name}: expected the accesses to be {[lazy.LEVEL[w] for w in want]}, analysis says {[lazy.LEVEL[g] for g in got]}')
+    ctx.note(f'built-in example: {len(EXAMPLE_WANT)} synthetic accessors classified as expected (dirty/clean/re-queued/copy/captured handle in a loop)')
 
 
 def r1(ctx: RuleCtx) -> None:
